@@ -198,6 +198,10 @@ def cases(tier):
                 cs.append(C("l/norm/ord=%s/%s/axis=%s/kd=%s" % (ord_, shp, ax, kd),
                             "out = mg.linalg.norm(x, ord=%r, axis=%r, keepdims=%r)" % (ord_, ax, kd), [("x", shp)],
                             assume="ne(x, 0)"))
+    # documented convention (nan_to_num=True, the default): zeros in x give a ZERO gradient - no domain assumption here; the definedness
+    # obligation finds the points where the implementation leaves the reals, the float replay decides whether a gradient is non-finite there
+    for ord_ in (None, 1, 3):
+        cs.append(C("l/norm/ord=%s/zeros-allowed" % ord_, "out = mg.linalg.norm(x, ord=%r, axis=1)" % ord_, [("x", (2, 2))], check_defined=True))
     # ------------------------------------------------------------------ indexing
     gi = ["0", "-1", "1:", "::-1", "::2", "..., 0", "None", "1, 0", "0, ...", ":, 1:", "[0, 0, 1]", "[[0, 1], [1, 0]]",
           "m", "[1, 0], [0, 0]", "0, [2, 2, 1]", ":, idx", "mb", "...", "[-1, 0]"]
